@@ -212,7 +212,7 @@ def check_entry_points(ctx):
 
 # ---- R7.5 ------------------------------------------------------------------------------------------------------------
 
-def _pruned_self_repairs(fi, truth):
+def _pruned_self_repairs(fi, truth, through=None):
     """Names of the repair helpers (`_fix_*`, the repository's naming for "make the remainder valid again") applied to `self` on the
     paths of `fi` that are feasible when the local names in `truth` have the given truth value."""
     from ..cfg import CFG
@@ -244,10 +244,36 @@ def _pruned_self_repairs(fi, truth):
     out = {}
     for i in reach:
         for x in subnodes(cfg, cfg.nodes[i]):
-            if isinstance(x, ast.Call) and (call_name(x) or '').startswith('_fix_'):
+            if isinstance(x, ast.Call) and call_name(x):
                 recv = x.func.value if isinstance(x.func, ast.Attribute) else (x.args[0] if x.args else None)
                 if isinstance(recv, ast.Name) and recv.id == 'self':
-                    out.setdefault(call_name(x), x.lineno)
+                    if call_name(x).startswith('_fix_'):
+                        out.setdefault(call_name(x), x.lineno)
+                    elif through is not None:
+                        through(call_name(x), x, out)
+    return out
+
+
+def _helper_repairs(ctx, name, depth=0, seen=None):
+    """`_fix_*` helpers a same-package helper applies to its own first parameter (any path), followed through at most three levels:
+    a repair moved into a shared helper is still a repair."""
+    seen = seen if seen is not None else set()
+    if name in seen or depth > 3:
+        return set()
+    seen.add(name)
+    out = set()
+    for fi in ctx.repo.all_funcs():
+        if fi.name != name or isinstance(fi.node, ast.Lambda) or not fi.node.args.args:
+            continue
+        p0 = fi.node.args.args[0].arg
+        for x in walk_no_nested(fi.node):
+            if isinstance(x, ast.Call) and call_name(x):
+                recv = x.func.value if isinstance(x.func, ast.Attribute) else (x.args[0] if x.args else None)
+                if isinstance(recv, ast.Name) and recv.id == p0:
+                    if call_name(x).startswith('_fix_'):
+                        out.add(call_name(x))
+                    else:
+                        out |= _helper_repairs(ctx, call_name(x), depth + 1, seen)
     return out
 
 
@@ -273,9 +299,17 @@ def check_cut_vs_delete(ctx):
             if isinstance(x, ast.Assign) and len(x.targets) == 1 and isinstance(x.targets[0], ast.Name) and isinstance(x.value, ast.Call) and \
                     (call_name(x.value) or '').startswith('_code_to_slice') and any(isinstance(a, ast.Name) and a.id == 'code' for a in x.value.args):
                 none[x.targets[0].id] = False        # the converted code: falsy exactly when code is None (delete)
-        G = _pruned_self_repairs(gf, {'cut': True})
+        delegates = []
+
+        def through(name, call, out, pf=pf):
+            # the cut path hands the delete to the put side itself, or applies the repairs through a shared helper
+            if name in ('_put_slice', 'put_slice', pf.name) and any(isinstance(a, ast.Constant) and a.value is None for a in call.args[:2]):
+                delegates.append(name)
+            for r in _helper_repairs(ctx, name):
+                out.setdefault(r, call.lineno)
+        G = _pruned_self_repairs(gf, {'cut': True}, through)
         P = _pruned_self_repairs(pf, none)
-        missing = sorted(set(P) - set(G))
+        missing = [] if delegates else sorted(set(P) - set(G))
         ctx.check('R7.5', not missing, gf.module, gf.qualname, f'cut applies the delete repairs of {pf.qualname}',
                   f'deleting through {pf.qualname} repairs the remainder with {missing} (line {P[missing[0]] if missing else 0}) but the cut '
                   f'path of {gf.qualname} does not: a cut can leave source that the delete would have repaired (e.g. a lone tuple item '
